@@ -18,7 +18,8 @@ META = {
     "rule": "obligations = for every valuation (origin kind x destination kind x in-degree 0..3 x out-degree "
     "0..3 x self-loop) of a node whose neighbours are valid: is_valid(raises=False) returns the V-table "
     "verdict, an invalid verdict carries >= 1 message, is_valid(raises=True) raises InvalidNetworkError "
-    "exactly when invalid; duplicate-object scenarios; per-node view call shapes",
+    "exactly when invalid; duplicate-object scenarios; per-node view call shapes"
+    "; a second is_valid() on the same network in the same interpreter gives the same verdict (shared mutable defaults / memoisation are modelled)",
     "explanation": "is_valid is interpreted from source (never executed) on concrete graph shapes built in a "
     "model of the DiGraph API; the shapes enumerate the finite abstraction on which every guard of is_valid "
     "and every documented condition depends (all thresholds <= 1, verified), so the comparison is a truth "
